@@ -36,13 +36,17 @@ ANCHORS = [
     "stereomolgraph.algorithms.isomorphism:_stereo_change_feasibility",
 ]
 REQUIRED_ANCHORS = ANCHORS
-REQUIRED = ["oracle_equal", "oracle_unequal", "cross_class_pairs", "mutation_pairs", "independent_pairs", "with_placeholder", "wl_hard_pairs", "large_pairs", "switch_pairs"]
+REQUIRED = ["oracle_equal", "oracle_unequal", "cross_class_pairs", "mutation_pairs", "independent_pairs", "with_placeholder", "wl_hard_pairs", "large_pairs", "switch_pairs", "bond_change_only_pairs"]
 
 
 def gen_cases(ctx):
     rng = ctx.rng
     yield from _regular_pairs(ctx, rng)
     yield from _switch_pairs(ctx, rng)
+    # the only stereo element sits in a bond stereo change, no bond changes its role, no atom stereo change
+    for i in range(ctx.n(1600, 20000)):
+        a, b = gen.bond_change_only_pair(rng)
+        yield {"kind": "indep", "cls": "StereoCondensedReactionGraph", "a": pg_to_json(a), "b": pg_to_json(b), "mut": None, "bseed": rng.randrange(1 << 30), "family": "bond-change-only"}
     n = ctx.n(12000, 250000)
     big = (4, 12) if ctx.tier == "quick" else (4, 24)
     for i in range(n):
@@ -242,6 +246,8 @@ def check_case(ctx, case):
         ctx.count("with_placeholder")
     if len(a["atoms"]) >= 20:
         ctx.count("large_pairs")
+    if case.get("family") == "bond-change-only":
+        ctx.count("bond_change_only_pairs")
     if kind == "mut":
         ctx.count(f"mut:{case['mut']}:{'equal' if truth else 'unequal'}")
     for name, f in (("a==b", lambda: ga == gb), ("b==a", lambda: gb == ga)):
